@@ -97,6 +97,26 @@ def run(res, tier):
                 bad.append(dict(info, **desc, X=X.tolist()))
             if len(samples) < 3:
                 samples.append(desc)
+    # badly scaled data: the solver may fail numerically.  A fit that completes must still not silently return the
+    # all-zero matrix when a strictly feasible model exists (a fit that raises is a refusal, not a result)
+    for h in range(3 if tier == 'quick' else 12):
+        ns = 2; nu = 1
+        X, _, _ = lmi.linear_data(rng, ns, nu, kind='stable')
+        Xs = np.array(X, copy=True)
+        Xs[:, 1:1 + ns] *= [30.0, 50.0, 100.0][h % 3]
+        g = 2.0
+        Xi = np.block([[np.eye(ns) / g, np.zeros((ns, nu))], [np.zeros((nu, ns)), -g * np.eye(nu)]])
+        try:
+            reg = L.LmiEdmdDissipativityConstr(supply_rate=Xi, max_iter=3, solver_params=lmi.SOLVER)
+            reg.fit(Xs, n_inputs=nu, episode_feature=True)
+        except Exception:  # noqa
+            dist['scaled_data_fit_refused'] = dist.get('scaled_data_fit_refused', 0) + 1
+            continue
+        dist['scaled_data_fit_completed'] = dist.get('scaled_data_fit_completed', 0) + 1
+        if not np.any(reg.coef_) and not is_F9(Xi, ns):
+            bad.append(dict(what='fit completed with the all-zero Koopman matrix (only a log line) although a strictly feasible '
+                                 'model exists for this supply rate', stop_reason=str(reg.stop_reason_), n_iter=int(reg.n_iter_),
+                            estimator=repr(reg), X=Xs.tolist()))
     # history: the same estimator object refitted after set_params(supply_rate=...) must behave as a fresh one
     n_hist = 3 if tier == 'quick' else 20
     for h in range(n_hist):
@@ -107,6 +127,17 @@ def run(res, tier):
         reg = L.LmiEdmdDissipativityConstr(supply_rate=mk(g1), max_iter=3, solver_params=lmi.SOLVER)
         try:
             reg.fit(X, n_inputs=nu, episode_feature=True)
+            if h % 3 == 2:
+                # back to the default supply rate (None): must behave like a fresh default estimator
+                reg.set_params(supply_rate=None)
+                reg.fit(X, n_inputs=nu, episode_feature=True)
+                fresh0 = L.LmiEdmdDissipativityConstr(max_iter=3, solver_params=lmi.SOLVER).fit(X, n_inputs=nu, episode_feature=True)
+                if float(np.max(np.abs(reg.coef_ - fresh0.coef_))) > 1e-3 * max(1.0, float(np.max(np.abs(fresh0.coef_)))):
+                    bad.append(dict(what='estimator refitted after set_params(supply_rate=None) differs from a fresh default estimator '
+                                         '(an earlier explicit supply rate is still enforced)', X=X.tolist(),
+                                    coef_difference=float(np.max(np.abs(reg.coef_ - fresh0.coef_)))))
+                dist['refit_history'] = dist.get('refit_history', 0) + 1
+                continue
             reg.set_params(supply_rate=mk(g2))
             reg.fit(X, n_inputs=nu, episode_feature=True)
             fresh = L.LmiEdmdDissipativityConstr(supply_rate=mk(g2), max_iter=3, solver_params=lmi.SOLVER)
